@@ -40,4 +40,6 @@ CORPUS = [
     Mut('c02-memo-ignores-use-ambiguities', SP, '', "    def compute_tips_partials(self, use_ambiguities=False):\n        return compress_alignment(self.alignment, self.indices, use_ambiguities)",
         "    def compute_tips_partials(self, use_ambiguities=False):\n        if self._cache is None:\n            self._cache = compress_alignment(self.alignment, self.indices, use_ambiguities)\n        return self._cache", expect=[('C02.N', 'memo::')], mode='text',
         more=[dict(scope='', old="        self.indices = indices\n", new="        self.indices = indices\n        self._cache = None\n", mode='text')]),
+    Mut('c02-scalers-escape-the-pattern-weights', 'torchtree/evolution/tree_likelihood.py', '', "    return torch.sum(\n        (\n            torch.log(freqs @ torch.sum(props * partials[post_indexing[-1][0]], dim=-3))\n            + torch.cat(scalers, -2).log().sum(dim=-2).unsqueeze(-2)\n        )\n        * weights,\n        dim=-1,\n    )\n", "    site_log_p = torch.log(freqs @ torch.sum(props * partials[post_indexing[-1][0]], dim=-3))\n    log_scalers = torch.cat(scalers, -2).log().sum(dim=-2).unsqueeze(-2)\n    return torch.sum(site_log_p * weights + log_scalers, dim=-1)\n", expect=[('C02.W', 'weights-multiply-the-whole-site-term')], mode='text', nth=1),
+    Mut('c02-benign-return-through-locals', 'torchtree/evolution/tree_likelihood.py', '', "    return torch.sum(\n        (\n            torch.log(freqs @ torch.sum(props * partials[post_indexing[-1][0]], dim=-3))\n            + torch.cat(scalers, -2).log().sum(dim=-2).unsqueeze(-2)\n        )\n        * weights,\n        dim=-1,\n    )\n", "    site_log_p = torch.log(freqs @ torch.sum(props * partials[post_indexing[-1][0]], dim=-3))\n    log_scalers = torch.cat(scalers, -2).log().sum(dim=-2).unsqueeze(-2)\n    return torch.sum((site_log_p + log_scalers) * weights, dim=-1)\n", benign=True, mode='text', nth=1),
 ]
